@@ -14,6 +14,28 @@ from core import rel
 from facts import strip, show, walk, const_val, normalize_cond, atom_of
 
 
+def round_init(run, prog, RULE):
+    """C11-e / C09-g: the heart-beat round starts from freshly assigned cursors."""
+    chb = run.need(prog.func("call_heart_beat"), "call_heart_beat")
+    run.saw(chb)
+    subs = [(b, i, n) for b, i, n in chb.nodes() if n.get("k") == "Sub" and strip(n["b"]).get("n") == "heart_beats"]
+    run.need(subs, "heart_beats[] subscript in call_heart_beat")
+    sb, si, sn = min(subs, key=lambda x: x[2].get("l") or 0)
+    idxv = strip(sn["i"])
+    run.need(idxv.get("k") == "Ref" and idxv.get("d") in ("global", "static"), "the round cursor is a file-scope variable")
+    # the bound it is compared with inside the loop
+    bounds = {strip(x).get("n") for b, i, n in chb.nodes() if n.get("k") == "Bin" and n.get("op") in ("==", "<", ">=", "!=") for x, y in ((n["R"], n["L"]), (n["L"], n["R"]))
+              if any(w.get("k") == "Ref" and w.get("n") == idxv.get("n") for w in walk(y)) and strip(x).get("k") == "Ref" and strip(x).get("d") in ("global", "static")}
+    for v in [idxv.get("n")] + sorted(bounds - {idxv.get("n")}):
+        inits = [(b, i, n) for b, i, n in chb.nodes() if n.get("k") == "Asg" and n.get("op") == "=" and strip(n["L"]).get("n") == v and chb.point_dominates((b.id, i), (sb.id, si))]
+        # chained  a = b = 0  counts for both
+        inits += [(b, i, n) for b, i, n in chb.nodes() if n.get("k") == "Asg" and n.get("op") == "=" and strip(n["R"]).get("k") == "Asg" and strip(strip(n["R"])["L"]).get("n") == v and chb.point_dominates((b.id, i), (sb.id, si))]
+        run.ob(RULE, "round-init:%s" % v, bool(inits), "%s is assigned at line %s, before the first heart_beats[] subscript (line %s)" % (v, inits[0][2].get("l"), sn.get("l")) if inits else
+               "%s is not assigned in call_heart_beat before heart_beats[%s] is first used (line %s): after a heart_beat error the previous round's value is reused" % (v, idxv.get("n"), sn.get("l")),
+               chb.file, sn.get("l"), "call_heart_beat", what="call_heart_beat starts a round with a stale %s when the previous round was left by an error (objects skipped, or heart_beats[-1] read)" % v)
+
+
+
 def fault_locality(run, prog, RULE):
     """C11-a / C09-d: the failing heart beat, and only it, is switched off on the uncaught path."""
     eh = run.need(prog.func("error_handler"), "error_handler")
@@ -92,6 +114,7 @@ def fault_locality(run, prog, RULE):
 def check(run, prog, tier):
     run.rule("C11-a", "error_handler: on the uncaught path with current_heart_beat set, set_heart_beat(current_heart_beat,0) and the clearing store precede the jump; current_heart_beat has no other writers; it is set before the heart_beat call", 4)
     run.rule("C11-b", "destruct_object: set_heart_beat(ob, 0) dominates the store that sets O_DESTRUCTED", 1)
+    run.rule("C11-e", "call_heart_beat: the round cursor and the round length (the variables the heart_beats[] subscript and its bound use) are assigned in call_heart_beat before the first subscript on every path; an error leaves the round by longjmp, so the reset at the end of a round cannot be relied on", 2)
     run.rule("C11-d", "set_heart_beat removal: num_hb_to_do-- only for an entry inside the running round (index < num_hb_to_do), heart_beat_index-- only for an entry at or before the cursor, both only while a round runs", 2)
     run.rule("C11-c", "heart_beats[]: every subscript is bounded by num_hb_objs (counting-down loop from the length, or append after the capacity test); the capacity variable is increased before the reallocation", 6)
 
@@ -181,20 +204,4 @@ def check(run, prog, tier):
     run.ob("C11-c", "hb-growth", okg, "max_heart_beats += %s dominates `%s`" % (show(incs[0][2]["R"]) if incs else "?", show(gn)[:70]) if okg else "the list is 'grown' to an unchanged capacity",
            shb.file, gn.get("l"), "set_heart_beat", what="set_heart_beat reallocates heart_beats[] without increasing its capacity")
 
-    # ---- C11-e round state is initialised at the start of the round, not left over from the previous one
-    run.rule("C11-e", "call_heart_beat: the round cursor and the round length (the variables the heart_beats[] subscript and its bound use) are assigned in call_heart_beat before the first subscript on every path; an error leaves the round by longjmp, so the reset at the end of a round cannot be relied on", 2)
-    subs = [(b, i, n) for b, i, n in chb.nodes() if n.get("k") == "Sub" and strip(n["b"]).get("n") == "heart_beats"]
-    run.need(subs, "heart_beats[] subscript in call_heart_beat")
-    sb, si, sn = min(subs, key=lambda x: x[2].get("l") or 0)
-    idxv = strip(sn["i"])
-    run.need(idxv.get("k") == "Ref" and idxv.get("d") in ("global", "static"), "the round cursor is a file-scope variable")
-    # the bound it is compared with inside the loop
-    bounds = {strip(x).get("n") for b, i, n in chb.nodes() if n.get("k") == "Bin" and n.get("op") in ("==", "<", ">=", "!=") for x, y in ((n["R"], n["L"]), (n["L"], n["R"]))
-              if any(w.get("k") == "Ref" and w.get("n") == idxv.get("n") for w in walk(y)) and strip(x).get("k") == "Ref" and strip(x).get("d") in ("global", "static")}
-    for v in [idxv.get("n")] + sorted(bounds - {idxv.get("n")}):
-        inits = [(b, i, n) for b, i, n in chb.nodes() if n.get("k") == "Asg" and n.get("op") == "=" and strip(n["L"]).get("n") == v and chb.point_dominates((b.id, i), (sb.id, si))]
-        # chained  a = b = 0  counts for both
-        inits += [(b, i, n) for b, i, n in chb.nodes() if n.get("k") == "Asg" and n.get("op") == "=" and strip(n["R"]).get("k") == "Asg" and strip(strip(n["R"])["L"]).get("n") == v and chb.point_dominates((b.id, i), (sb.id, si))]
-        run.ob("C11-e", "round-init:%s" % v, bool(inits), "%s is assigned at line %s, before the first heart_beats[] subscript (line %s)" % (v, inits[0][2].get("l"), sn.get("l")) if inits else
-               "%s is not assigned in call_heart_beat before heart_beats[%s] is first used (line %s): after a heart_beat error the previous round's value is reused" % (v, idxv.get("n"), sn.get("l")),
-               chb.file, sn.get("l"), "call_heart_beat", what="call_heart_beat starts a round with a stale %s when the previous round was left by an error (objects skipped, or heart_beats[-1] read)" % v)
+    round_init(run, prog, "C11-e")
